@@ -13,13 +13,21 @@ def traces(prop, seed, tier):
     return tracedriver.gen_cases(prop, seed, tier, want_faults=True, fault_ops_filter=("add", "update"))
 
 
+def kills(prop, seed, tier):
+    # add / update killed on entering every tracked system call: the directory left behind
+    return tracedriver.gen_kill_cases(prop, seed, tier)
+
+
 CONFIG = dict(
     rule="add / update / init / set-admin / remove (and the read-only calls) each run in a fresh process under strace on prepared stores "
          "(records without aux data, with 15 B, 5 KB without trailing LF, binary, 200 KB in the thorough tier; .tmp absent, present, with residue; empty directory); "
          "the calls between two marker stats are projected to create/mkdir/write/fsync/rename/unlink events on base, base/.tmp and their files; "
          "compared with the events of the model's program and fed to the verified checker protocol_complete_ok; "
-         "non-trivial = at least one mutation-relevant call; distinct = distinct case terms",
-    parts=[dict(pydrivers=[traces], run="C08", shard=30, header=THDR, case_type="tcase")],
+         "non-trivial = at least one mutation-relevant call; distinct = distinct case terms; "
+         "kill states: add / update killed with SIGKILL on entering each of their tracked system calls (strace -e inject=...:signal=SIGKILL), the directory left behind "
+         "and the verdict of `check` on it judged by Run/C08k (absent / empty reservation / old / complete new record, other files untouched, validity survives)",
+    parts=[dict(pydrivers=[traces], run="C08", shard=30, header=THDR, case_type="tcase"),
+           dict(pydrivers=[kills], run="C08k", shard=30, header=THDR, case_type="kcase")],
     trusted_extra=["strace 6.1 (system-call observation); lib/tracelib.py projection of strace output",
                    "the persistence model of Crash.v (atomic rename, fsync semantics, adversarial loss) is an assumption about kernel and file system"],
 )
